@@ -337,7 +337,13 @@ func runC20(r *core.Run) {
 		go func(cidx int) {
 			defer wg.Done()
 			rr := core.NewRand(r.Seed, 20, uint64(cidx))
-			client := &http.Client{Timeout: 3 * time.Minute, Transport: &http.Transport{DialContext: func(ctx context.Context, network, addr string) (net.Conn, error) {
+			// the request watchdog covers the whole exchange, body included; in the thorough tier 32 clients share
+			// the race-instrumented process with the churn and pages reach megabytes - minutes are normal there
+			reqTimeout := 3 * time.Minute
+			if !r.Quick() {
+				reqTimeout = 45 * time.Minute
+			}
+			client := &http.Client{Timeout: reqTimeout, Transport: &http.Transport{DialContext: func(ctx context.Context, network, addr string) (net.Conn, error) {
 				c, err := (&net.Dialer{}).DialContext(ctx, network, addr)
 				if tc, ok := c.(*net.TCPConn); ok {
 					_ = tc.SetReadBuffer(8 << 10)
@@ -375,6 +381,7 @@ func runC20(r *core.Run) {
 					continue
 				}
 				var body []byte
+				var rerr error
 				if slow {
 					// a slow reader: the server's writes fill the small socket buffers and block
 					chunk := make([]byte, 2048)
@@ -382,6 +389,9 @@ func runC20(r *core.Run) {
 						n, err := resp.Body.Read(chunk)
 						body = append(body, chunk[:n]...)
 						if err != nil {
+							if err != io.EOF {
+								rerr = err
+							}
 							break
 						}
 						if len(body)%(16<<10) < 2048 {
@@ -389,9 +399,21 @@ func runC20(r *core.Run) {
 						}
 					}
 				} else {
-					body, _ = io.ReadAll(resp.Body)
+					body, rerr = io.ReadAll(resp.Body)
 				}
 				resp.Body.Close()
+				if ne, ok := rerr.(interface{ Timeout() bool }); ok && ne.Timeout() {
+					// the watchdog fired while the body was being read: what arrived is cut by the harness, not by the
+					// handler - same classification as a request that got no answer at all
+					if st := blockedHandlerStack(); st != "" {
+						if !stuck.Swap(true) {
+							r.Violation("handler-blocked", fmt.Sprintf("%s ?%s: the answer stopped after %d bytes and a handler goroutine is parked inside the library:\n%s", spec.Method, spec.Query, len(body), st), "req", spec)
+						}
+					} else if !stuck.Swap(true) {
+						r.Inconclusive(fmt.Sprintf("%s ?%s: the request watchdog fired while the answer was still being written (%d bytes so far)", spec.Method, spec.Query, len(body)))
+					}
+					return
+				}
 				r.Mark("statuses", fmt.Sprintf("%s valid=%v -> %d", spec.Method, spec.Valid, resp.StatusCode))
 				r.Distinct(core.HashStr(spec.Method + spec.Query + strconv.Itoa(cidx*100000+k)))
 				if resp.StatusCode == 599 {
@@ -411,7 +433,7 @@ func runC20(r *core.Run) {
 				headers, _ := strconv.Atoi(resp.Header.Get("X-Verif-Headers"))
 				parsed, _ := strconv.Atoi(resp.Header.Get("X-Verif-Parsed"))
 				if !bytes.HasPrefix(body, []byte("<!DOCTYPE html>")) || bytes.Count(body, []byte(`<div class="bottom-padding"></div>`)) != 1 || !bytes.HasSuffix(bytes.TrimSpace(body), []byte(`<div class="bottom-padding"></div>`)) {
-					r.Violation("page-not-one-document", fmt.Sprintf("GET ?%s: the body (%d bytes) is not one complete page (doctype first, the closing bottom-padding div exactly once at the end)", spec.Query, len(body)), "req", spec)
+					r.Violation("page-not-one-document", fmt.Sprintf("GET ?%s: the body (%d bytes) is not one complete page (doctype first, the closing bottom-padding div exactly once at the end); error reading the body: %v; it ends with %q", spec.Query, len(body), rerr, b2s(body[maxI(0, len(body)-160):], 160)), "req", spec)
 					continue
 				}
 				if rawLen, _ := strconv.Atoi(resp.Header.Get("X-Verif-RawLen")); rawLen >= 1<<20 {
@@ -433,7 +455,7 @@ func runC20(r *core.Run) {
 					continue
 				}
 				if !bytes.HasPrefix(body, []byte("<!DOCTYPE html>")) || bytes.Count(body, []byte(`<div class="bottom-padding"></div>`)) != 1 || !bytes.HasSuffix(bytes.TrimSpace(body), []byte(`<div class="bottom-padding"></div>`)) {
-					r.Violation("page-not-one-document", fmt.Sprintf("GET ?%s: the body (%d bytes) is not one complete page (doctype first, the closing bottom-padding div exactly once at the end)", spec.Query, len(body)), "req", spec)
+					r.Violation("page-not-one-document", fmt.Sprintf("GET ?%s: the body (%d bytes) is not one complete page (doctype first, the closing bottom-padding div exactly once at the end); error reading the body: %v; it ends with %q", spec.Query, len(body), rerr, b2s(body[maxI(0, len(body)-160):], 160)), "req", spec)
 					continue
 				}
 				sum, nb := bucketSizes(body)
